@@ -210,7 +210,127 @@ pub fn run(args: &vrt::Args) {
     out.finish();
 }
 
+/// Free-running race of one pair of BiArc operations that the spec's state graph has enabled
+/// at the same time (`{"race":"drop-drop"|"lend-lend"|"lend-drop","rounds":N,"ms":T}`): the
+/// two operations run on real, unscheduled threads released together from a spin barrier, so
+/// the hardware interleaves the individual memory accesses.  Complements the SCHED replay,
+/// which can only preempt at yield points (DESIGN §9): an atomic read-modify-write of
+/// `BiArcInner::state` that was split into separate accesses executes atomically there.
+fn race(b: &Value, selftest: &str) -> Outcome {
+    use std::sync::atomic::{AtomicUsize, Ordering::SeqCst};
+    let mode = b.s("race").to_string();
+    let rounds = b.u("rounds");
+    let t_end = std::time::Instant::now() + std::time::Duration::from_millis(b.u("ms"));
+    let mut o = Outcome { fail: None, step: -1, drift: 0, steps: 0, drift_at: -1, drift_why: String::new(), final_status: String::new() };
+    let drops = Arc::new(Mutex::new(Vec::new()));
+    let mut r = 0u64;
+    while r < rounds && std::time::Instant::now() < t_end {
+        drops.lock().unwrap().clear();
+        let lender: L = Lender::new(
+            Pay { id: 1, magic: MAGIC, val: 0, drops: Arc::clone(&drops) },
+            Pay { id: 2, magic: MAGIC, val: 0, drops: Arc::clone(&drops) },
+        );
+        let bar = AtomicUsize::new(0);
+        let wait = |jit: u64| {
+            bar.fetch_add(1, SeqCst);
+            while bar.load(SeqCst) < 2 {
+                std::hint::spin_loop();
+            }
+            for _ in 0..jit {
+                std::hint::spin_loop();
+            }
+        };
+        let (j1, j2) = ((r % 7) * 3, ((r / 7) % 7) * 3);
+        let mut fail: Option<Fail> = None;
+        match mode.as_str() {
+            "drop-drop" => {
+                let loan = lender.lend().expect("fresh lender lends");
+                std::thread::scope(|sc| {
+                    sc.spawn(|| {
+                        wait(j1);
+                        if selftest == "forget" { std::mem::forget(lender) } else { drop(lender) }
+                    });
+                    sc.spawn(|| {
+                        wait(j2);
+                        drop(loan)
+                    });
+                });
+            }
+            "lend-lend" => {
+                let (a, b2) = std::thread::scope(|sc| {
+                    let h1 = sc.spawn(|| {
+                        wait(j1);
+                        lender.lend()
+                    });
+                    let h2 = sc.spawn(|| {
+                        wait(j2);
+                        lender.lend()
+                    });
+                    (h1.join().unwrap(), h2.join().unwrap())
+                });
+                if a.is_some() && b2.is_some() {
+                    fail = Some(("C44:two-loans".into(), format!("two concurrent lend() calls both got a loan (round {r})")));
+                    // never drop three handles of a two-handle cell: that would free twice
+                    std::mem::forget(a);
+                    std::mem::forget(b2);
+                    std::mem::forget(lender);
+                    o.fail = fail;
+                    o.step = r as i64;
+                    break;
+                } else if a.is_none() && b2.is_none() {
+                    fail = Some(("C44:no-loan".into(), format!("two concurrent lend() calls on an unshared lender both failed (round {r})")));
+                }
+                drop(a);
+                drop(b2);
+                drop(lender);
+            }
+            "lend-drop" => {
+                let loan = lender.lend().expect("fresh lender lends");
+                let second = std::thread::scope(|sc| {
+                    let h1 = sc.spawn(|| {
+                        wait(j1);
+                        lender.lend()
+                    });
+                    sc.spawn(|| {
+                        wait(j2);
+                        drop(loan)
+                    });
+                    h1.join().unwrap()
+                });
+                drop(second);
+                drop(lender);
+            }
+            m => vrt::die(&format!("unknown race mode {m}")),
+        }
+        r += 1;
+        o.steps = r;
+        if fail.is_none() {
+            let d = drops.lock().unwrap();
+            if d.len() < 2 {
+                fail = Some(("C44:leak".into(), format!("race {mode}, round {}: every handle is gone but the data was not freed (payload drops {:?})", r - 1, *d)));
+            } else if d.len() > 2 || d[0].0 == d[1].0 {
+                fail = Some(("C44:double-free".into(), format!("race {mode}, round {}: payload dropped more than once: {:?}", r - 1, *d)));
+            }
+        }
+        if BAD_DROP.load(std::sync::atomic::Ordering::Relaxed) {
+            fail = Some(("C44:double-free".into(), "the payload was dropped again after its memory was freed".into()));
+        }
+        if fail.is_some() {
+            o.fail = fail;
+            o.step = r as i64 - 1;
+            break;
+        }
+    }
+    o.final_status = format!("race {mode}: {r} rounds");
+    o
+}
+
 fn replay(b: &Value, rng: &mut vrt::Rng, selftest: &str) -> (Outcome, alloc::Report) {
+    if b.get("race").is_some() {
+        BAD_DROP.store(false, std::sync::atomic::Ordering::Relaxed);
+        let o = race(b, selftest);
+        return (o, alloc::reset());
+    }
     let nloans = b.u("loans") as usize;
     let lends = b.u("lends") as usize;
     let gets = b.u("gets") as usize;
